@@ -111,12 +111,18 @@ def xsm_model(u=1.0, perm=(0, 1), signs=(1.0, 1.0), shift=(0.0, 0.0)):
     def to_user(x):
         x = np.asarray(x, float)
         return (signs_ * x[perm_] + shift_).tolist()
+    def from_user(y):
+        y = np.asarray(y, float)
+        x = np.empty_like(y)
+        x[perm_] = (y - shift_) / signs_
+        return x.tolist()
     m = XsmModel()
     m.to_user = to_user
+    m.from_user = from_user
     return m
 
 
-def new_xsm_manager(u=1.0, gridM=20, errTol=1e-3, TnOverU=100.0, **relabel):
+def new_xsm_manager(u=1.0, gridM=20, errTol=1e-3, TnOverU=100.0, int_guess=False, **relabel):
     import WallGo
     from WallGo import Fields
     warnings.simplefilter("ignore")
@@ -126,15 +132,22 @@ def new_xsm_manager(u=1.0, gridM=20, errTol=1e-3, TnOverU=100.0, **relabel):
     m.config.configEOM.errTol = errTol
     model = xsm_model(u=u, **relabel)
     m.registerModel(model)
-    setup_xsm(m, model, u, TnOverU)
+    setup_xsm(m, model, u, TnOverU, int_guess)
     return m, model
 
 
-def setup_xsm(m, model, u, TnOverU=100.0):
+def setup_xsm(m, model, u, TnOverU=100.0, int_guess=False):
+    """int_guess: the (approximate) phase locations are handed over as INTEGER-typed Fields where they are whole numbers in the user's frame"""
     import WallGo
     from WallGo import Fields
     sc = np.abs(np.asarray(model.to_user([50.0 * u, 50.0 * u])) - np.asarray(model.to_user([0.0, 0.0])))
+
+    def guess(x):
+        y = model.to_user(x)
+        if int_guess and all(float(v).is_integer() for v in y):
+            return Fields([int(v) for v in y])
+        return Fields(y)
     m.setupThermodynamicsHydrodynamics(
-        WallGo.PhaseInfo(temperature=TnOverU * u, phaseLocation1=Fields(model.to_user([0.0, 105.0 * u])),
-                         phaseLocation2=Fields(model.to_user([195.0 * u, 0.0]))),
+        WallGo.PhaseInfo(temperature=TnOverU * u, phaseLocation1=guess([0.0, 105.0 * u]),
+                         phaseLocation2=guess([195.0 * u, 0.0])),
         WallGo.VeffDerivativeSettings(temperatureVariationScale=10.0 * u, fieldValueVariationScale=sc.tolist()))
